@@ -2,6 +2,7 @@ package main
 
 import (
 	"bytes"
+	"math/big"
 	"context"
 	"fmt"
 	"os"
@@ -85,7 +86,7 @@ const smtPrelude = `(define-fun tdiv ((a Int) (b Int)) Int (ite (>= a 0) (ite (>
 `
 
 // smtText renders hyps |- goal as an SMT-LIB2 script (unsat = valid).
-func (w *World) smtText(hyps []*Term, goal *Term, inputs []InputVar) string {
+func (w *World) smtText(hyps []*Term, goal *Term, inputs []InputVar, reveal map[string]bool) string {
 	p := newPrinter()
 	for _, h := range hyps {
 		p.count(h)
@@ -101,6 +102,17 @@ func (w *World) smtText(hyps []*Term, goal *Term, inputs []InputVar) string {
 			return
 		}
 		done[name] = true
+		if sdl := w.SpecFuncs[name]; sdl != nil && sdl.Opaque && !reveal[name] {
+			// opaque: declared, not defined
+			pn, pt := sdl.paramNamesTypes()
+			_ = pn
+			var as []string
+			for _, t := range pt {
+				as = append(as, smtSortOf(t))
+			}
+			defs = append(defs, fmt.Sprintf("(declare-fun %s (%s) %s)", smtName(name), strings.Join(as, " "), smtSortOf(sdl.Results)))
+			return
+		}
 		sd := w.specDef(name)
 		if sd == nil {
 			return
@@ -170,6 +182,16 @@ func (w *World) smtText(hyps []*Term, goal *Term, inputs []InputVar) string {
 		fmt.Fprintf(&sb, "(get-value (%s))\n", strings.Join(vals, " "))
 	}
 	return sb.String()
+}
+
+func smtSortOf(goType string) string {
+	switch strings.TrimSpace(goType) {
+	case "int":
+		return "Int"
+	case "bool":
+		return "Bool"
+	}
+	return "Real"
 }
 
 type solverSpec struct {
@@ -272,12 +294,37 @@ func (d *Discharger) discharge(o *Obligation) {
 		d.dischargeBatch(o)
 		return
 	}
-	r := d.run(o.Name, o.Hyps, o.Goal, o.Inputs, d.timeout)
+	r := d.run(o.Name, o.Hyps, o.Goal, o.Inputs, d.timeout, o.Reveal)
 	if r.status != "unsat" && o.Split != nil && r.status != "sat" {
 		d.dischargeSplit(o)
 		return
 	}
+	if r.status == "sat" {
+		r = d.dyadicModel(o, r)
+	}
 	d.record(o, r)
+}
+
+// dyadicModel: a counterexample whose float64 inputs are arbitrary reals cannot be replayed; ask again for one whose
+// real-valued inputs are multiples of 2^-24 (exactly representable doubles). Falls back to the original model.
+func (d *Discharger) dyadicModel(o *Obligation, r solveResult) solveResult {
+	var extra []*Term
+	termMu.Lock()
+	for _, iv := range o.Inputs {
+		if iv.T.Sort == SReal && iv.T.Op == "var" {
+			k := freshVar("dy", SInt)
+			extra = append(extra, mkEq(mkMul(mkRat(big.NewRat(16777216, 1)), iv.T), toReal(k)))
+		}
+	}
+	termMu.Unlock()
+	if len(extra) == 0 {
+		return r
+	}
+	r2 := d.run1(o.Name+".dyadic", append(append([]*Term{}, o.Hyps...), extra...), o.Goal, o.Inputs, d.timeout, o.Reveal)
+	if r2.status == "sat" {
+		return r2
+	}
+	return r
 }
 
 func (d *Discharger) record(o *Obligation, r solveResult) {
@@ -296,30 +343,32 @@ func (d *Discharger) record(o *Obligation, r solveResult) {
 	}
 }
 
-func (d *Discharger) run(name string, hyps []*Term, goal *Term, inputs []InputVar, timeout int) solveResult {
+func (d *Discharger) run(name string, hyps []*Term, goal *Term, inputs []InputVar, timeout int, reveal map[string]bool) solveResult {
 	// relaxed attempt: without the float exactness facts
 	var lite []*Term
+	termMu.Lock()
 	for _, h := range hyps {
 		if !exactnessHyp[h.id] {
 			lite = append(lite, h)
 		}
 	}
+	termMu.Unlock()
 	if len(lite) < len(hyps) {
 		lt := timeout / 2
 		if lt < 5 {
 			lt = 5
 		}
-		r := d.run1(name+".lite", lite, goal, inputs, lt)
+		r := d.run1(name+".lite", lite, goal, inputs, lt, reveal)
 		if r.status == "unsat" {
 			return r
 		}
 	}
-	return d.run1(name, hyps, goal, inputs, timeout)
+	return d.run1(name, hyps, goal, inputs, timeout, reveal)
 }
 
-func (d *Discharger) run1(name string, hyps []*Term, goal *Term, inputs []InputVar, timeout int) solveResult {
+func (d *Discharger) run1(name string, hyps []*Term, goal *Term, inputs []InputVar, timeout int, reveal map[string]bool) solveResult {
 	termMu.Lock()
-	txt := d.w.smtText(hyps, goal, inputs)
+	txt := d.w.smtText(hyps, goal, inputs, reveal)
 	termMu.Unlock()
 	f := filepath.Join(d.dir, sanitizeFile(name)+".smt2")
 	os.WriteFile(f, []byte(txt), 0644)
@@ -337,7 +386,7 @@ func (d *Discharger) dischargeBatch(o *Obligation) {
 	}
 	goal := mkAnd(cs...)
 	termMu.Unlock()
-	r := d.run(o.Name, nil, goal, o.Inputs, d.timeout)
+	r := d.run(o.Name, nil, goal, o.Inputs, d.timeout, o.Reveal)
 	if r.status == "unsat" {
 		d.record(o, r)
 		o.Sub = len(o.Batch)
@@ -346,7 +395,7 @@ func (d *Discharger) dischargeBatch(o *Obligation) {
 	// find the failing member
 	total := 0.0
 	for i, m := range o.Batch {
-		mr := d.run(fmt.Sprintf("%s.%d", o.Name, i), m.Hyps, m.Goal, o.Inputs, d.timeout)
+		mr := d.run(fmt.Sprintf("%s.%d", o.Name, i), m.Hyps, m.Goal, o.Inputs, d.timeout, o.Reveal)
 		total += mr.seconds
 		if mr.status != "unsat" {
 			d.record(o, mr)
@@ -363,57 +412,89 @@ func (d *Discharger) dischargeBatch(o *Obligation) {
 }
 
 func (d *Discharger) dischargeSplit(o *Obligation) {
-	sp := o.Split
+	splits := o.Splits
+	if len(splits) == 0 {
+		splits = []*SplitSpec{o.Split}
+	}
 	total := 0.0
-	// coverage
-	termMu.Lock()
-	cov := mkAnd(mkLe(mkInt(sp.Lo), sp.Term), mkLe(sp.Term, mkInt(sp.Hi)))
-	termMu.Unlock()
-	r := d.run(o.Name+".cover", o.Hyps, cov, o.Inputs, d.timeout)
-	total += r.seconds
-	if r.status != "unsat" {
-		d.record(o, r)
-		o.Clause += " [split coverage: " + sp.Text + " in range]"
-		return
+	for _, sp := range splits {
+		termMu.Lock()
+		cov := mkAnd(mkLe(mkInt(sp.Lo), sp.Term), mkLe(sp.Term, mkInt(sp.Hi)))
+		termMu.Unlock()
+		r := d.run(o.Name+".cover", o.Hyps, cov, o.Inputs, d.timeout, o.Reveal)
+		total += r.seconds
+		if r.status != "unsat" {
+			d.record(o, r)
+			o.Clause += " [split coverage: " + sp.Text + " in range]"
+			return
+		}
 	}
-	var wg sync.WaitGroup
+	// cartesian product of the cases
+	combos := [][]int64{{}}
+	for _, sp := range splits {
+		var next [][]int64
+		for _, c := range combos {
+			for k := sp.Lo; k <= sp.Hi; k++ {
+				next = append(next, append(append([]int64{}, c...), k))
+			}
+		}
+		combos = next
+	}
 	type sub struct {
-		k int64
-		r solveResult
+		idx int
+		tag string
+		r   solveResult
 	}
-	results := make([]sub, 0)
-	var mu sync.Mutex
-	for k := sp.Lo; k <= sp.Hi; k++ {
-		k := k
+	results := make([]sub, len(combos))
+	var wg sync.WaitGroup
+	sem := make(chan struct{}, 6)
+	for ci, combo := range combos {
+		ci, combo := ci, combo
 		wg.Add(1)
 		go func() {
 			defer wg.Done()
+			sem <- struct{}{}
+			defer func() { <-sem }()
 			termMu.Lock()
-			h := append(append([]*Term{}, o.Hyps...), mkEq(sp.Term, mkInt(k)))
+			h := append([]*Term{}, o.Hyps...)
 			g := o.Goal
-			if sp.Term.Op == "var" {
-				// case split on an input variable: substitute, so constant folding does the work
-				m := map[string]*Term{sp.Term.Name: mkInt(k)}
-				for i := range h {
-					h[i] = substVars(h[i], m)
+			var tags []string
+			exact := map[int]bool{}
+			for _, x := range h {
+				if exactnessHyp[x.id] {
+					exact[x.id] = true
 				}
-				g = substVars(g, m)
+			}
+			for si, sp := range splits {
+				k := combo[si]
+				tags = append(tags, fmt.Sprintf("%s=%d", sp.Text, k))
+				h = append(h, mkEq(sp.Term, mkInt(k)))
+				if sp.Term.Op == "var" {
+					m := map[string]*Term{sp.Term.Name: mkInt(k)}
+					for i := range h {
+						was := exactnessHyp[h[i].id]
+						h[i] = substVars(h[i], m)
+						if was {
+							exactnessHyp[h[i].id] = true
+						}
+					}
+					g = substVars(g, m)
+				}
 			}
 			termMu.Unlock()
-			rr := d.run(fmt.Sprintf("%s.split%d", o.Name, k), h, g, o.Inputs, d.timeout)
-			mu.Lock()
-			results = append(results, sub{k, rr})
-			mu.Unlock()
+			tag := strings.Join(tags, ",")
+			rr := d.run(fmt.Sprintf("%s.case_%s", o.Name, sanitizeFile(tag)), h, g, o.Inputs, d.timeout, o.Reveal)
+			results[ci] = sub{ci, tag, rr}
 		}()
 	}
 	wg.Wait()
-	sort.Slice(results, func(i, j int) bool { return results[i].k < results[j].k })
 	solver := map[string]bool{}
 	for _, s := range results {
 		total += s.r.seconds
 		if s.r.status != "unsat" {
 			d.record(o, s.r)
-			o.Clause += fmt.Sprintf(" [case %s == %d]", sp.Text, s.k)
+			o.Clause += fmt.Sprintf(" [case %s]", s.tag)
+			o.Seconds = total
 			return
 		}
 		solver[s.r.solver] = true
@@ -426,5 +507,5 @@ func (d *Discharger) dischargeSplit(o *Obligation) {
 	o.Status = "discharged"
 	o.Solver = strings.Join(ss, "+")
 	o.Seconds = total
-	o.Sub = int(sp.Hi-sp.Lo) + 2
+	o.Sub = len(combos) + len(splits)
 }
